@@ -331,8 +331,24 @@ def _gen_analytic(rng, tier, specs):
         specs.append({'form': 'analytic', 'shape': shape, 'prm': prm})
 
 
+def _gen_sentinels(specs):
+    """Hand-built minimal cases first (one per finding class seen on the pinned tree; after a fix
+    they stay as regression sentinels): the twisted cubic with scalar torsion input, a rational
+    cubic with a one-element list, the smallest periodic basis whose images wrap twice."""
+    tw = {'bases': [{'order': 4, 'knots': [0.0] * 4 + [1.0] * 4, 'periodic': -1}],
+          'cps': [[0, 0, 0], [1 / 3, 0, 0], [2 / 3, 1 / 3, 0], [1, 1, 1]], 'rational': False}
+    cr = {'bases': [{'order': 4, 'knots': [0.0] * 4 + [1.0] * 4, 'periodic': -1}],
+          'cps': [[0, 0, 0, 1], [1, 0, 0, 2], [1, 1, 0, 1], [1, 1, 1, 1]], 'rational': True}
+    specs.append({'form': 'torsion', 'obj': tw, 'ts': [0.5], 'call': 'scalar', 'above': True, 'twisted': True})
+    specs.append({'form': 'torsion', 'obj': cr, 'ts': [0.25], 'call': 'array1', 'above': True})
+    specs.append({'form': 'frenet', 'obj': cr, 'ts': [0.25], 'call': 'array1', 'above': True, 'which': 'binormal'})
+    specs.append({'form': 'integrate', 'basis': {'order': 3, 'knots': [-2.0, -1.0, 0.0, 1.0, 2.0, 3.0], 'periodic': 1},
+                  't0': 0.0, 't1': 1.0})
+
+
 def generate(rng, tier):
     specs = []
+    _gen_sentinels(specs)
     _gen_integrate(rng, tier, specs)
     _gen_center(rng, tier, specs)
     _gen_volume(rng, tier, specs)
@@ -634,7 +650,7 @@ def compare(s, iv, mv):
             return _cmp_area(iv, mv)
         return diff(iv, mv, RTOL, 1e-9)
     if f in ('curvature', 'torsion', 'frenet'):
-        if _degenerate(mv, s):
+        if _degenerate(mv, s) or _ill_conditioned(s):
             return None
         want = _model_values(mv, s)
         if want is None:       # planar torsion: zeros (scalar input gives a one-element array)
@@ -738,6 +754,46 @@ def exact_curve_jets(o, t, above, upto=3):
             xk.append(acc / W[0])
         xs.append(xk)
     return xs
+
+
+_JETS = {}
+
+
+def _jets(s):
+    """Exact jets (position and the first three derivatives) at every parameter of a
+    curvature/torsion/frenet spec (cached per spec object)."""
+    key = id(s)
+    hit = _JETS.get(key)
+    if hit is not None and hit[0] is s:
+        return hit[1]
+    j = [exact_curve_jets(s['obj'], t, s['above']) for t in s['ts']]
+    if len(_JETS) > 20000:
+        _JETS.clear()
+    _JETS[key] = (s, j)
+    return j
+
+
+def _ill_conditioned(s):
+    """True when the quotients are numerically ill-conditioned at some parameter (nearly vanishing
+    speed, or velocity nearly parallel to the acceleration for torsion/Frenet): float rounding of the
+    implementation is then not covered by the 1e-9 tolerances, so nothing is compared there."""
+    o = s['obj']
+    if _dim(o) not in (2, 3):
+        return False
+    cps = np.array(o['cps'], dtype=float)
+    info = gen.basis_info(o['bases'][0])
+    S2 = (float(np.max(np.abs(cps))) / max(info['end'] - info['start'], 1e-300)) ** 2
+    for (_, v, a, _) in _jets(s):
+        v3 = [float(c) for c in v] + [0.0] * (3 - len(v))
+        a3 = [float(c) for c in a] + [0.0] * (3 - len(a))
+        vv, aa = _dot(v3, v3), _dot(a3, a3)
+        if vv < 1e-6 * S2:
+            return True
+        if s['form'] in ('torsion', 'frenet') and aa > 0:
+            w = _cross(v3, a3)
+            if 0 < _dot(w, w) < 1e-6 * vv * aa:
+                return True
+    return False
 
 
 def _cross(a, b):
@@ -887,7 +943,7 @@ def _oracle_measure(sp, s, o=None):
         with np.errstate(all='ignore'):
             errs.append(abs(_measure(c) - R))
     floor = 1e-10 * R
-    if errs[-1] > max(0.25 * r['budget'], floor):
+    if errs[-1] > max(0.5 * r['budget'], floor):
         fails.append('%s error does not shrink under refinement: %r (budget %.3g)' % (name, errs, r['budget']))
     return fails
 
@@ -1037,7 +1093,7 @@ def _oracle_repind(sp, s):
                 v.refine(1)
         with np.errstate(all='ignore'):
             dref = abs(sum(_measure(v) for v in bs) - _measure(a))
-        if dref > max(0.25 * budget, 1e-10 * R):
+        if dref > max(0.5 * budget, 1e-10 * R):
             fails.append('%s difference between the two representations does not shrink under refine: %.3g -> %.3g' % (
                 name, abs(m1 - want_m), dref))
     return fails
@@ -1096,8 +1152,9 @@ def _oracle_frenet_family(sp, s):
         return []
     if f == 'frenet' and dim != 3:
         return []
-    # exact jets
-    jets = [exact_curve_jets(s['obj'], t, above) for t in ts]
+    if _ill_conditioned(s):
+        return []
+    jets = _jets(s)
     with np.errstate(all='ignore'):
         try:
             got = _call_forms({'curvature': o.curvature, 'torsion': o.torsion}.get(f) or getattr(o, s['which']), s)
@@ -1299,6 +1356,8 @@ def tags(s, res):
             out.append(f + ':rational')
         if not s['above']:
             out.append('from-below')
+        if _ill_conditioned(s):
+            out.append('ill-conditioned')
     if f == 'repind':
         out.append('repind:' + s['op'])
         if o['rational']:
